@@ -1,7 +1,7 @@
 // C16 -- floating-point results stay at rounding level of the exact result.
 // Each case is ONE library operation on exactly representable (dyadic)
-// operands; the same operation is executed with T = Q (exact) and with T =
-// float / double / long double. Error measure: per interval
+// operands, executed with T = float / double / long double; the exact result
+// comes from the reference model (ref.h + AST interpreter), not from the library. Error measure: per interval
 //   E = sum_k |c_k^fl - c_k^exact| h^k   (scalars: |v^fl - v^exact|)
 // bounded by 2^20 * eps_T * S with S the absolute-value shadow of the operation
 // (same formula on |coefficients|, (|u|+|xm|)^n for X<n>, DESIGN 6.6).
@@ -62,7 +62,7 @@ static Out out_scalar(const T &v) {
 }
 
 // ----- T-generic expressions with their AST (for the shadow)
-constexpr int NEXPR = 8;
+constexpr int NEXPR = 10;
 template <class T, int E, class F>
 static auto make_expr(const F &f) {
   if constexpr (E == 0) { (void)f; return bo::IdentityOperator{}; }
@@ -72,6 +72,8 @@ static auto make_expr(const F &f) {
   else if constexpr (E == 4) { (void)f; return bo::X<2>{} * bo::Dx<1>{} - 3 * bo::X<1>{}; }
   else if constexpr (E == 5) { (void)f; return bo::X<1>{} / 2 + 3; }
   else if constexpr (E == 6) { return bo::SplineOperator{f} * bo::Dx<1>{}; }
+  else if constexpr (E == 8) { (void)f; return bo::X<1>{} / 3.0f + 0.75f; }            // scalar type narrower than the spline's
+  else if constexpr (E == 9) { (void)f; return (2.5f * bo::Dx<1>{}) / 7; }               // int divisor, not a power of two
   else { (void)f; return bo::Dx<1>{} * bo::X<1>{} - bo::X<1>{} * bo::Dx<1>{}; }
 }
 static ex::NP expr_ast(int e) {
@@ -84,6 +86,8 @@ static ex::NP expr_ast(int e) {
     case 4: return SUB(MUL(X(2), D(1)), SCALE(rq(3), X(1)));
     case 5: return ADDC(DIV(X(1), rq(2)), rq(3));
     case 6: return MUL(SOP(0), D(1));
+    case 8: return ADDC(DIV(X(1), rq(3)), rq(3, 4));
+    case 9: return DIV(SCALE(rq(5, 2), D(1)), rq(7));
     default: return SUB(MUL(D(1), X(1)), MUL(X(1), D(1)));
   }
 }
@@ -143,10 +147,78 @@ static Out run(const FloatC &c) {
 
 static FILE *g_transcript = nullptr;
 
+// exact result of the operation from the reference model (absolute-basis polynomial algebra, AST interpreter):
+// shares no code with the library, so a change that is wrong in EVERY scalar type cannot hide in a differential
+struct Exact {
+  bool scalar = false;
+  R value;                 // scalar results
+  std::vector<R> values;   // evaluation: admissible values (either adjacent piece at a shared grid point)
+  ref::Fn fn;              // spline results
+};
+template <size_t oa, size_t ob>
+static Exact exact_result(const FloatC &c) {
+  Exact e;
+  ref::Fn fa = model_of(c.g, c.a, oa), fb = model_of(c.g, c.b, ob), ff = model_of(c.g, c.b, 1);
+  i64 cn = c.cnum == 0 ? 1 : c.cnum;
+  R cr(cn, c.cden < 1 ? 1 : c.cden); cr.canonicalize();
+  ex::NP ast = expr_ast((int)(c.expr % NEXPR)), ast2 = expr_ast((int)((c.expr % NEXPR + 3) % NEXPR));
+  switch (c.op) {
+    case O_ADD: e.fn = ref::add(fa, fb); break;
+    case O_SUB: e.fn = ref::sub(fa, fb); break;
+    case O_MUL: e.fn = ref::mul(fa, fb); break;
+    case O_SCALE: e.fn = ref::scale(fa, cr); break;
+    case O_DIV: e.fn = ref::scale(fa, 1 / cr); break;
+    case O_LINCOMB: e.fn = ref::add(ref::add(ref::scale(fa, cr), ref::scale(model_of(c.g, c.b, oa), R(-3, 4))), ref::scale(fa, R(5, 8))); break;
+    case O_DX: e.fn = ref::deriv(fa, (size_t)c.n % 5); break;
+    case O_X: e.fn = ref::mulx(fa, (size_t)c.n % 3); break;
+    case O_EVAL: {
+      e.scalar = true;
+      R x(c.xnum, 64); x.canonicalize();
+      bool inside = c.a.e - c.a.s >= 2 && x >= fa.grid[(size_t)c.a.s] && x <= fa.grid[(size_t)c.a.e - 1];
+      if (!inside) e.values.push_back(R(0));
+      else for (size_t j = (size_t)c.a.s; (i64)j + 1 < c.a.e; j++) if (fa.grid[j] <= x && x <= fa.grid[j + 1]) e.values.push_back(ref::eval(fa.piece[j], x));
+      e.value = e.values.front();
+      break;
+    }
+    case O_LINFORM: e.scalar = true; e.value = ref::integral(ex::interp(ast, fa, {ff})); break;
+    case O_BILFORM: e.scalar = true; e.value = ref::integral(ref::mul(ex::interp(ast, fa, {ff}), ex::interp(ast2, fb, {ff}))); break;
+    default: e.fn = ex::interp(ast, fa, {ff}); break;
+  }
+  return e;
+}
+// midpoint (Taylor) coefficients of an absolute-basis polynomial about xm
+static std::vector<R> taylor(const ref::Poly &p, const R &xm, size_t count) {
+  std::vector<R> out(count, R(0));
+  ref::Poly d = ref::trimmed(p);
+  R fact(1);
+  for (size_t k = 0; k < count; k++) {
+    if (k > 0) fact *= R((long)k);
+    out[k] = ref::eval(d, xm) / fact;
+    d = ref::deriv(d, 1);
+  }
+  return out;
+}
+
 template <class T, size_t oa, size_t ob>
 static void float_T(const FloatC &c, vf::Obs &o) {
-  Out ex_ = run<Q, oa, ob>(c);
+  Exact exr = exact_result<oa, ob>(c);
   Out fl = run<T, oa, ob>(c);
+  // scalar-independent view of the exact result, on the window the floating-point run produced
+  Out ex_;
+  ex_.scalar = exr.scalar;
+  ex_.value = exr.value;
+  if (!exr.scalar) {
+    ex_.start = fl.start; ex_.end = fl.end;
+    std::vector<R> gp = c.g.points();
+    for (size_t i = 0; i < fl.coeffs.size(); i++) {
+      size_t j = fl.start + i;
+      if (j + 1 >= gp.size()) { o.fail("result window exceeds the grid"); return; }
+      ex_.coeffs.push_back(taylor(exr.fn.piece[j], (gp[j] + gp[j + 1]) / 2, fl.coeffs[i].size()));
+      if (ref::trimmed(exr.fn.piece[j]).size() > fl.coeffs[i].size()) { o.fail("exact result has a higher degree than the returned array can hold"); return; }
+    }
+    for (size_t j = 0; j < exr.fn.nint(); j++)
+      if (!(j >= fl.start && j + 1 < fl.end) && !ref::is_zero(exr.fn.piece[j])) { o.fail(std::string(op_name((int)c.op)) + ": result window misses grid interval " + std::to_string(j) + " where the exact result is non-zero"); return; }
+  }
   if (g_transcript) {
     fprintf(g_transcript, "%s:", vf::to_text(c).c_str());
     for (auto &h : fl.hex) fprintf(g_transcript, " %s", h.c_str());
@@ -163,7 +235,7 @@ static void float_T(const FloatC &c, vf::Obs &o) {
   for (size_t j = 0; j < pts.size(); j++) { if (absr(pts[j]) > maxabs) maxabs = absr(pts[j]); if (j) { R g = pts[j] - pts[j - 1]; if (g < mingap) mingap = g; if (g > maxgap) maxgap = g; } }
   bool far = maxabs >= 4, ratio8 = maxgap >= 8 * mingap;
   if (far && mingap <= R(1, 4)) o.cls("far-from-origin-small-gaps");
-  o.nt(std::max(oa, ob) >= 2 && (far || ratio8 || c.op == O_SUB || (c.op == O_EXPR && c.expr % NEXPR == 7)));
+  o.nt(std::max(oa, ob) >= 2 && (far || ratio8 || c.op == O_SUB || (c.op == O_EXPR && c.expr % NEXPR >= 7)));
 
   auto judge = [&](const R &E, const R &S, const std::string &where) {
     if (S == 0) { VCHECK(o, E == 0, label << " " << where << ": non-zero error " << E.get_d() << " although every term involved is zero"); return; }
@@ -205,7 +277,7 @@ static void float_T(const FloatC &c, vf::Obs &o) {
           R dx = absr(x - (pts[j] + pts[j + 1]) / 2), s1 = sh_sum(sh_abs(coef(c.a, oa, j)), dx);
           if (s1 > S) S = s1;  // at a shared grid point either piece may be used: take the larger allowance
         }
-      if (S == 0 && ex_.value == 0 && fl.value == 0) return;
+      if (S == 0 && fl.value == 0) return;
     } else {
       for (size_t j = 0; j + 1 < pts.size(); j++) {
         R h = (pts[j + 1] - pts[j]) / 2, xm = absr((pts[j] + pts[j + 1]) / 2);
@@ -214,7 +286,9 @@ static void float_T(const FloatC &c, vf::Obs &o) {
         else S += sh_integral(sh_mul(sh_expr(ast, A, xm, F), sh_expr(ast2, B, xm, F)), h);
       }
     }
-    judge(absr(fl.value - ex_.value), S, "value");
+    R err = absr(fl.value - ex_.value);
+    for (const auto &v : exr.values) if (absr(fl.value - v) < err) err = absr(fl.value - v);
+    judge(err, S, "value");
     return;
   }
   VCHECK(o, !fl.scalar && fl.start == ex_.start && fl.end == ex_.end && fl.coeffs.size() == ex_.coeffs.size(), label << ": result window differs between the exact and the floating-point run");
